@@ -38,7 +38,8 @@ Proof.
 Qed.
 
 (* ---------- assembly of the per-property theorems ---------- *)
-From Ivv Require Import Core.CoreRel Core.CoreCodes2 Core.CorePhase2Fd Core.CorePhase2Time Core.CorePhase2TimeC09 Core.CorePhase2Ei.
+From Ivv Require Import Core.CoreRel Core.CoreCodes2 Core.CorePhase2Fd Core.CorePhase2Time Core.CorePhase2TimeC09 Core.CorePhase2Ei
+  Core.CorePhase2AcctSpinTop.
 
 Lemma range_no_code : forall lo hi tr c, none_in lo hi (mon_fails tr) = true -> lo <= c < hi -> ~ In c (mon_fails tr).
 Proof. intros lo hi tr c H R Hin. exact (none_in_no_code lo hi _ c H Hin R). Qed.
@@ -73,4 +74,12 @@ Proof.
               | apply (HA _ Hc); cbn [In]; tauto
               | apply (HH _ Hc); cbn [In]; tauto ] end ] |]).
   contradiction.
+Qed.
+
+(* The tracker monitor is silent on every well-formed scenario: on every poll method and under every fault set. *)
+Theorem core_mon_all : forall sc, wf_scenario sc -> mon_all (run_scenario sc) = true.
+Proof.
+  intros sc WF. unfold mon_all. destruct (mon_fails (run_scenario sc)) as [|c l] eqn:E; [reflexivity|].
+  exfalso. assert (Hin : In c (mon_fails (run_scenario sc))) by (rewrite E; left; reflexivity).
+  pose proof (core_all_but_711 sc WF c Hin) as ->. exact (core_code_711 sc WF Hin).
 Qed.
